@@ -6,7 +6,7 @@ import random
 from .. import astx, modgen
 from ..core import REPO
 
-TIME_BUDGET = {"quick": 60, "thorough": 1100}
+TIME_BUDGET = {"quick": 170, "thorough": 1100}
 META = {
     "rule": "expression grammar {Name, Attribute, Call (positional/keyword), Subscript (index, key, slice), UnaryOp(-,+,~,not), BinOp (all 13 operators), "
     "BoolOp, Compare (all 10 operators, chained), IfExp, Tuple, List, Dict (string keys incl. 'jet-pt', 'class', '', 'a b'), nested Lambda} over "
